@@ -300,10 +300,10 @@ class IntroVisitor(ast.NodeVisitor):
         # _logger.debug(f"visit_call: call name is {n}")
         if n is not None:
             self._store_names.add(n)
-        # This is a bit brute-force (not working for multi-line function calls)
-        # but it should be good enough in practice for most cases.
+        # All the lines of the function up to the end of the call (a call may span several lines).
         # TODO: refine it based of the nested parse tree?
-        function_body_hash = dds_hash(self._body_lines[: node.lineno + 1])
+        end_lineno = getattr(node, "end_lineno", None) or node.lineno
+        function_body_hash = dds_hash(self._body_lines[: end_lineno + 1])
         # The list of all the previous interactions.
         # This enforces the concept that the current call depends on previous calls.
         function_inters_sig: Optional[PyHash] = dds_hash_commut(
